@@ -375,6 +375,7 @@ type stats struct {
 	classes    map[string]int
 	distinct   map[uint64]struct{}
 	samples    []json.RawMessage
+	first      json.RawMessage // fallback sample when no non-trivial case was small enough
 	seen       int // nontrivial seen, for reservoir
 }
 
@@ -408,6 +409,9 @@ func (st *stats) record(raw []byte, res Result) {
 	}
 	for _, c := range res.Classes {
 		st.classes[c]++
+	}
+	if st.evals == 1 && len(raw) <= 3000 {
+		st.first = append(json.RawMessage(nil), raw...)
 	}
 	if !res.NonTrivial {
 		return
@@ -481,6 +485,9 @@ func flushStats() {
 		st := allStats[n]
 		if st.evals == 0 {
 			continue
+		}
+		if len(st.samples) == 0 && st.first != nil {
+			st.samples = append(st.samples, st.first)
 		}
 		out = append(out, statsFile{Sub: n, Requested: st.requested, Evals: st.evals, NonTrivial: st.nontrivial,
 			Skipped: st.skipped, Fails: st.fails, Distinct: len(st.distinct), Classes: st.classes, Samples: st.samples,
